@@ -13,7 +13,7 @@ def decodeOps : Nat → List Nat → List Operand
   | _ + 1, [] => []
   | f + 1, 0 :: r => .none :: decodeOps f r
   | f + 1, 1 :: t :: i :: r => .reg t i :: decodeOps f r
-  | f + 1, 2 :: sz :: bt :: bi :: it :: ii :: off :: seg :: bc :: r => .mem sz bt bi it ii off seg bc :: decodeOps f r
+  | f + 1, 2 :: sz :: bt :: bi :: it :: ii :: sh :: off :: seg :: bc :: r => .mem sz bt bi it ii sh off seg bc :: decodeOps f r
   | f + 1, 3 :: v :: r => .imm v :: decodeOps f r
   | f + 1, 4 :: r => .label :: decodeOps f r
   | _ + 1, _ => [.other]
